@@ -111,6 +111,17 @@ pub fn alphabet() -> Vec<Build> {
         Build::Str("aliases-of-pointer-registers", ".def xl_a = r26\n.def xl_b = r26\n.def xl_c = r26\n.def zh_a = r31\n.def zh_b = r31\nldi xl_c, 1\nldi zh_b, 2\n"),
         Build::Str("colliding-constants-labels-variables", ".equ one_a = 1\n.equ one_b = 1\n.equ one_c = 1\n.set one_v = 1\n.set one_w = 1\nl_a:\nl_b:\nl_c: nop\n.dw l_a, l_b, l_c, one_a + one_b + one_c + one_v + one_w\n"),
         Build::Str("redefinitions", ".equ red = 1\n.equ red = 2\n.def ra = r16\n.def ra = r17\n.set rv = 1\n.set rv = 2\nldi ra, red + rv\n"),
+        // one name, another kind of thing in every build (a variable, a label that is a branch
+        // target, constants defined by expressions with different values, evaluations that fail
+        // half way, an alias, a macro): whatever a build remembers about a name is its own
+        Build::Str("one-name-as-variable", ".set shared_q = 3\nldi r16, shared_q\n"),
+        Build::Str("one-name-as-branch-target", "nop\nnop\nshared_q: dec r16\nbrne shared_q\nrjmp shared_q\n.dw shared_q\n"),
+        Build::Str("one-name-as-constant-2", ".equ shared_q = 1 + 1\n.dq shared_q * 2\n"),
+        Build::Str("one-name-as-constant-3", ".equ shared_q = 2 + 1\n.dq shared_q * 2\n"),
+        Build::Str("one-name-overflowing", ".equ shared_q = 1 << 62\n.dq shared_q * 4\n"),
+        Build::Str("one-name-divided-by-zero", ".equ shared_q = 1 + 1\n.dq 7, shared_q / 0\n"),
+        Build::Str("one-name-as-alias", ".def shared_q = r17\nmov shared_q, r0\n"),
+        Build::Str("one-name-as-macro", ".macro shared_q\nldi r18, 1\n.endm\nshared_q\n"),
     ]
 }
 
@@ -290,6 +301,10 @@ pub fn run(tier: Tier) -> i32 {
     for f in 0..n {
         for g in 0..n {
             if matches!(alpha[f], Build::File(..)) && matches!(alpha[g], Build::File(..)) && tier == Tier::Quick && f != g {
+                continue;
+            }
+            // (the one-name group accumulates within itself)
+            if alpha[f].name().starts_with("one-name-") != alpha[g].name().starts_with("one-name-") {
                 continue;
             }
             n_acc += 1;
